@@ -106,8 +106,23 @@ func (h *Header) Verify(u *Header) error {
 	return TypeVerify(h, u)
 }
 
+// softType makes the type-level check report its rejections as *VerifyError with SoftFailure set,
+// also for adjacent headers (a header type is allowed to do so).
+var softType atomic.Bool
+
+// SetSoftType switches the soft-reporting mode of the type-level check.
+func SetSoftType(b bool) { softType.Store(b) }
+
 // TypeVerify is the reference type-level rule (also used by oracles).
 func TypeVerify(t, u *Header) error {
+	err := typeVerify(t, u)
+	if err != nil && softType.Load() {
+		return &header.VerifyError{Reason: err, SoftFailure: true}
+	}
+	return err
+}
+
+func typeVerify(t, u *Header) error {
 	if !u.Signed {
 		return ErrUnsigned
 	}
